@@ -118,7 +118,8 @@ impl<'a> SendLastStateProofProcess<'a> {
         // Check chain root for all headers.
         return_if_failed!(self.protocol.check_chain_root_for_headers(headers.iter()));
 
-        let headers = headers
+        let verifiable_headers = headers;
+        let headers = verifiable_headers
             .iter()
             .map(|item| item.header().to_owned())
             .collect::<Vec<_>>();
@@ -160,6 +161,18 @@ impl<'a> SendLastStateProofProcess<'a> {
         }
         return_if_failed!(check_continuous_headers(
             &headers[(reorg_count + sampled_count)..]
+        ));
+
+        // Check total difficulties for the continuous headers: the total difficulty of the last
+        // header is what the client is going to trust, it has to be accumulated from the headers
+        // before it (the proof items of the MMR proof are not verifiable by themselves).
+        return_if_failed!(self.protocol.check_total_difficulty_for_continuous_headers(
+            verifiable_headers[..reorg_count].iter()
+        ));
+        return_if_failed!(self.protocol.check_total_difficulty_for_continuous_headers(
+            verifiable_headers[(reorg_count + sampled_count)..]
+                .iter()
+                .chain(Some(&last_header))
         ));
 
         // Verify MMR proof
